@@ -1,5 +1,6 @@
 #include "../matrix.hpp"
 #include "../common.hpp"
+#include "../geometric.hpp"
 
 namespace glm
 {
@@ -477,9 +478,9 @@ namespace glm
 	GLM_FUNC_QUALIFIER GLM_CONSTEXPR typename mat<3, 3, T, Q>::row_type operator*(typename mat<3, 3, T, Q>::col_type const& v, mat<3, 3, T, Q> const& m)
 	{
 		return typename mat<3, 3, T, Q>::row_type(
-			dot(m[0], v),
-			dot(m[1], v),
-			dot(m[2], v));
+			detail::compute_dot<vec<3, T, Q>, T, detail::is_aligned<Q>::value>::call(m[0], v),
+			detail::compute_dot<vec<3, T, Q>, T, detail::is_aligned<Q>::value>::call(m[1], v),
+			detail::compute_dot<vec<3, T, Q>, T, detail::is_aligned<Q>::value>::call(m[2], v));
 	}
 
 	namespace detail
